@@ -55,7 +55,43 @@ pub static C16: CheckSpec = CheckSpec {
     assumptions: &["identities come from a fixed pool of 192 deterministic secp256k1 keys, so populated buckets are the high ones (255, 254, ...)"],
 };
 
-pub static ALL: &[&CheckSpec] = &[&C07, &C08, &C16];
+const REAL_QUERY: &[&str] = &["query_pool::peers::closest::FindNodeQuery", "query_pool::peers::predicate::PredicateQuery", "query_pool::QueryPool / Query"];
+
+pub static C09: CheckSpec = CheckSpec {
+    id: "C09",
+    level: "exploration",
+    scenarios: &[
+        Scenario { name: "query-direct", weight: 2, run: worlds::query::run_direct },
+        Scenario { name: "query-pool", weight: 1, run: worlds::query::run_pool },
+    ],
+    runs_quick: 60_000,
+    runs_thorough: 6_000_000,
+    cap_quick_s: 60,
+    cap_thorough_s: 900,
+    rule: "one run = one generated event order (poll / success with 0..6 returned peers that are new, duplicate, closer, farther or the target itself / failure / silence past the peer timeout / late success / answers for never-asked or unknown peers) against a real FindNodeQuery or PredicateQuery (direct) or a real QueryPool with 1-3 concurrent queries and a query timeout (pool), parallelism 1..5, k 0..20, followed by a fault-free drain phase with a step bound (liveness); non-trivial = at least one fault-like event fired (failure, late success, silence, answer for a non-outstanding peer); distinct = distinct hash of the event log",
+    components_real: REAL_QUERY,
+    components_stub: &["OS monotonic clock (interposed)", "the service and its peers (the harness plays the answers)"],
+    assumptions: &["in flight = asked, not yet answered/failed and younger than the peer timeout", "the parallelism bound is `parallelism` until `parallelism` successes have been delivered (the query cannot have stalled before), max(parallelism, k) afterwards"],
+};
+
+pub static C10: CheckSpec = CheckSpec {
+    id: "C10",
+    level: "exploration",
+    scenarios: &[
+        Scenario { name: "query-direct", weight: 2, run: worlds::query::run_direct },
+        Scenario { name: "query-pool", weight: 1, run: worlds::query::run_pool },
+    ],
+    runs_quick: 60_000,
+    runs_thorough: 6_000_000,
+    cap_quick_s: 60,
+    cap_thorough_s: 900,
+    rule: "same runs as C09 (different run indices are not shared: C10 draws its own); the final result of every query (into_result after Finished, or at pool Timeout) is checked: at most k distinct ids, strictly increasing XOR distance to the target (raw bytes), each asked and answered with a success, predicate results reported with a matching record or flagged initially, and if fewer than k without timeout every certainly-learned candidate was asked",
+    components_real: REAL_QUERY,
+    components_stub: &["OS monotonic clock (interposed)", "the service and its peers (the harness plays the answers)"],
+    assumptions: &["'certainly learned' = the first k initial candidates plus peers returned by the first report of an asked peer (an under-approximation of what the query incorporated, so the completeness clause cannot false-alarm)"],
+};
+
+pub static ALL: &[&CheckSpec] = &[&C07, &C08, &C09, &C10, &C16];
 
 pub fn lookup(id: &str) -> Option<&'static CheckSpec> {
     ALL.iter().copied().find(|c| c.id.eq_ignore_ascii_case(id))
